@@ -106,7 +106,7 @@ def run(cx):
 
         def try_acquire_map(t):
             """variant -> status for the closure mapping TryAcquireError"""
-            kb = kidmap.get(t[2]) if t[0] == "agg" else None
+            kb = kidmap.get(t[2]) if t[0] == "agg" else (prog.bodies.get(t[1]) if t[0] == "fnptr" else None)      # closure, or a fn item used as the mapper
             if kb is None:
                 return None
             ko = Origins(kb)
